@@ -512,4 +512,10 @@ def f_fail(kind="fail"):
         }
     if kind == "plan_fails":
         return {"plan.py": script([tr("I", [], ["i.txt"]), ["exit", 3]])}
+    if kind == "child_and_plan_fail":
+        # the child fails, then its creator fails: the child is detached and stays FAILED
+        return {"plan.py": script([["step", "false", {"out": ["f.txt"]}], tr("I", [], ["i.txt"]),
+                                   ["nop"], ["nop"], ["exit", 3]])}
+    if kind == "repaired":
+        return {"plan.py": script([tr("I", [], ["i.txt"])], v=2)}
     raise ValueError(kind)
